@@ -428,6 +428,23 @@ fn thread_main(slot: usize, t: Value, regions: std::collections::HashMap<String,
             }
         }
     }
+    if mode == "vfork" {
+        // the thread sits in vfork(): it sleeps in the kernel, not interruptibly, until its child (which only pauses) execs or exits
+        tx.send((slot, rep)).unwrap();
+        unsafe {
+            #[allow(deprecated)]
+            let r = libc::vfork();
+            if r == 0 {
+                libc::prctl(libc::PR_SET_PDEATHSIG, libc::SIGKILL);
+                loop {
+                    libc::pause();
+                }
+            }
+            loop {
+                libc::pause();
+            }
+        }
+    }
     // private stack mapping with chosen neighbours
     let pages = t["stack_pages"].as_u64().unwrap_or(4) as usize;
     let below = t["below"].as_str().unwrap_or("guard").to_string();
